@@ -82,6 +82,38 @@ Proof.
   - apply Permutation_refl.
 Qed.
 
+(* the ids apply_global is given are the registered keys *)
+Lemma simple_ids_keys ds k : In k (simple_ids ds) <-> In k (map s_key ds).
+Proof.
+  unfold simple_ids, search_defs. rewrite map_map. cbn [sl_def init_slot].
+  split; intros Hk; apply in_map_iff in Hk; destruct Hk as [d [Ek Hd]];
+    subst k.
+  - apply dedupe_in in Hd. apply in_map. tauto.
+  - destruct (dedupe_complete sdef s_key ds [] d Hd) as [d' [Hd' Ek]];
+      [intros []|].
+    rewrite <- Ek. apply in_map. exact Hd'.
+Qed.
+
+(* the specification does not depend on how often an id is listed *)
+Lemma searched_ids W tsw (line : Type) (classify : list Z -> line) since
+      restrictions ds c :
+  searched W tsw line classify since restrictions (simple_ids ds) c =
+  searched W tsw line classify since restrictions (map s_key ds) c.
+Proof.
+  unfold searched, start_byte.
+  rewrite (restricted_ext restrictions _ _ (simple_ids_keys ds)).
+  reflexivity.
+Qed.
+
+Lemma seeks_ids since restrictions ds :
+  seeks since restrictions (simple_ids ds) =
+  seeks since restrictions (map s_key ds).
+Proof.
+  unfold seeks.
+  rewrite (restricted_ext restrictions _ _ (simple_ids_keys ds)).
+  reflexivity.
+Qed.
+
 Section Simple.
   Variables H A L W : Z.
   Variable tsw : list Z -> option Z.
@@ -101,18 +133,6 @@ Section Simple.
 
   Lemma simple_exec_nil ds : exec ds [] = TaskOk [].
   Proof. reflexivity. Qed.
-
-  (* the ids apply_global is given are the registered keys *)
-  Lemma simple_ids_keys ds k : In k (simple_ids ds) <-> In k (map s_key ds).
-  Proof.
-    unfold simple_ids, search_defs. rewrite map_map. cbn [sl_def init_slot].
-    split; intros Hk; apply in_map_iff in Hk; destruct Hk as [d [Ek Hd]];
-      subst k.
-    - apply dedupe_in in Hd. apply in_map. tauto.
-    - destruct (dedupe_complete sdef s_key ds [] d Hd) as [d' [Hd' Ek]];
-        [intros []|].
-      rewrite <- Ek. apply in_map. exact Hd'.
-  Qed.
 
   (* (B3) + C01 numbering: the byte-level stream model is C01/C07's
      whole-file model [simple_run_file] with apply_to_file as its [atf] *)
@@ -186,25 +206,6 @@ Section Simple.
         { unfold results_for. apply filter_In. split; [exact Hr|].
           apply Z.eqb_refl. }
         rewrite Hr' in Hf. destruct Hf.
-  Qed.
-
-  (* the specification does not depend on how often an id is listed *)
-  Lemma searched_ids since restrictions ds c :
-    searched W tsw line classify since restrictions (simple_ids ds) c =
-    searched W tsw line classify since restrictions (map s_key ds) c.
-  Proof.
-    unfold searched, start_byte.
-    rewrite (restricted_ext restrictions _ _ (simple_ids_keys ds)).
-    reflexivity.
-  Qed.
-
-  Lemma seeks_ids since restrictions ds :
-    seeks since restrictions (simple_ids ds) =
-    seeks since restrictions (map s_key ds).
-  Proof.
-    unfold seeks.
-    rewrite (restricted_ext restrictions _ _ (simple_ids_keys ds)).
-    reflexivity.
   Qed.
 
   (* ================================================== THE COMPOSITION *)
